@@ -19,7 +19,9 @@ print(' '.join(sorted(({l.split(']')[0][1:] for l in m.get('check_output',[]) if
   if ! git -C $WT apply $D/patch.diff 2>/dev/null; then echo "$ID PATCH-DOES-NOT-APPLY" >> $OUT; continue; fi
   RES=""
   for CH in $C $EXTRA; do
-    O=$(cd /verif && ISOBAR_REPO=$WT VERIF_SEED=${VERIF_SEED:-0} timeout 1200 ./check $CH --no-audit 2>&1 | grep -cE "^VIOLATION")
+    RAW=$(cd /verif && ISOBAR_REPO=$WT VERIF_SEED=${VERIF_SEED:-0} timeout 1200 ./check $CH --no-audit 2>&1)
+    O=$(echo "$RAW" | grep -cE "^VIOLATION")
+    echo "$RAW" | grep -qE "tier=|^VIOLATION" || O="CRASHED"
     RES="$RES $CH:$O"
     [ "$O" != "0" ] && break
   done
